@@ -44,6 +44,8 @@ structure Mdl where
   rollOff : Int
   /-- POMCP only: the rollout at a new leaf is guarded by `depth + 1 < maxDepth_ && !isTerminal(s1)` -/
   rollGuard : Bool
+  /-- the exploration constant is > 0 (then an untried action has UCT score `+inf`); `false`: it is 0 -/
+  explPos : Bool
   /-- `getA()` / `getA(s)` -/
   numA : Nat → Nat
   /-- the outcome is in the support of the generative model and `term` is `isTerminal(s1)` -/
@@ -111,6 +113,24 @@ def rollout (m : Mdl) : Nat → Nat → Rat → List Step → Option (Rat × Lis
         | some (x, log') => some (g * st.r + x, log')
     else none
 
+/-- least `a < n` with `f a = 0` -/
+def firstUntried (f : Nat → Nat) : Nat → Option Nat
+  | 0 => none
+  | n+1 => match firstUntried f n with
+    | some a => some a
+    | none => if f n = 0 then some n else none
+
+/-- what `findBestBonusA` is known to do without evaluating `log`/`sqrt`: the score of an untried action is
+    `V + c·sqrt(log(N+1)/0)`, i.e. `+inf` for `c > 0` and `NaN` for `c = 0`; the scan keeps the first best
+    (`>`), and nothing compares greater than, or to, a `NaN`.  So for `c > 0` the first untried action is taken
+    while there is one; for `c = 0` action 0 if it is untried, otherwise some action already tried. -/
+def uctOk (m : Mdl) (t : Tree) (p : Path) (a : Nat) : Bool :=
+  if m.explPos then
+    match firstUntried (t.aN p) (t.nA p) with
+    | some u => a == u
+    | none => true
+  else if t.aN p 0 = 0 then a == 0 else t.aN p a != 0
+
 inductive Mode where
   | stop
   | roll (n : Nat)
@@ -141,7 +161,7 @@ def simulate (m : Mdl) (H : Nat) : Nat → Tree → Path → Nat → Nat → Lis
   | 0, _, _, _, _, _ => none
   | _+1, _, _, _, _, [] => none
   | fuel+1, t, p, s, depth, st :: log =>
-    if st.s = s && decide (st.a < t.nA p) && m.valid st then
+    if st.s = s && decide (st.a < t.nA p) && m.valid st && uctOk m t p st.a then
       match descend m H (t.incN p) p depth st with
       | none => none
       | some (t1, .stop) => some (t1.update p st.a st.r, st.r, log)
